@@ -311,6 +311,17 @@ def _expr_equal(a: Any, b: Any) -> Optional[bool]:
         x, y = sp.sympify(a), sp.sympify(b)
     except Exception:
         return None
+    from sympy.logic.boolalg import Boolean as _Boolean
+
+    if isinstance(x, _Boolean) or isinstance(y, _Boolean):
+        # conditions (γ-guards inside a term): equal when structurally equal or provably equivalent
+        if x == y:
+            return True
+        try:
+            eqv = sp.simplify(sp.Equivalent(x, y))
+            return True if eqv is sp.true else (False if eqv is sp.false else None)
+        except Exception:
+            return None
     syms = sorted((x.free_symbols | y.free_symbols), key=lambda s: s.name)
     if syms and all(s_ in FINITE_DOMAINS for s_ in syms):
         # every symbol ranges over a declared finite domain: compare exactly on that domain (sampling
